@@ -74,6 +74,19 @@ fn main()->bool{
     is_error(v_aux()) && if_error(v_bad(3), 7) == 7 && get_error(v_bad(6)) == some("bad 6") && v_bad(4) == 4
 }
 "#),
+        t("inner-recursion-capturing-locals", r#"
+fn v_outer(v_n: int, v_tag: str)->int{
+    let v_local = v_tag + v_n.to_str();
+    fn v_inner(v_k: int)->int{ if(v_k == 0, v_local.len(), 1 + v_inner(v_k - 1)) }
+    v_inner(v_n)
+}
+fn v_aux()->int{ v_outer(6, "tag") + range(3).map((v_i: int)->{ v_outer(v_i, "x" * 40) }).to_array().len() }
+fn main()->bool{ v_aux() > 0 && v_outer(2, "ab") == 5 }
+"#),
+        t("big-concatenations", r#"
+fn v_aux()->int{ ("a" * 3000 + "b" * 3000).len() + (range(500).to_array() + range(500).to_array()).to_array().len() }
+fn main()->bool{ v_aux() == 7000 && if_error(("c" * 2500 + "d" * 2500).len(), 0 - 1) == 5000 }
+"#),
         t("guarded-big-allocations", r#"
 fn v_big(v_n: int)->int{ ("ab" * v_n).len() }
 fn v_aux()->int{ if_error(v_big(4000), 0 - 1) + if_error(range(700).to_array().len(), 0 - 1) + if_error(if(2 ** 30000 > 0, 1, 0), 0 - 1) }
